@@ -259,6 +259,15 @@ def sp4(proj, rep):
                         lits.append((q, k.arg, k.value.value, c))
                 if isinstance(c.func, ast.Attribute) and c.func.attr == 'to_bytes' and len(c.args) >= 2 and isinstance(c.args[1], ast.Constant):
                     lits.append((q, 'byteorder', c.args[1].value, c))
+    # exact integers only: numpy place values `1<<np.arange(n)` are fixed-width (bit 63 is negative, higher bits vanish)
+    for q in ('int_to_bitarray', 'bitarray_to_int'):
+        f = proj.func(f'{MOD}.{q}')
+        npw = [c for c in ast.walk(f.node) if isinstance(c, ast.BinOp) and isinstance(c.op, (ast.LShift, ast.Pow)) and 'arange' in ast.unparse(c)]
+        if npw:
+            n += 1
+            rep.violation('SP4', f'{MOD}.{q}', f'`{ast.unparse(npw[0])[:60]}` builds the place values in a fixed-width NumPy integer: for 64 bits or more (n >= 32) the integer is '
+                          f'truncated / negative, so int -> bits -> int is no longer the identity', m, npw[0])
+            return n
     n += 1
     if len(lits) < 4:
         rep.undecided('SP4', MOD, f'{len(lits)} order literals found (expected 4)', m, m.tree, text='order literals')
